@@ -416,7 +416,7 @@ func runC12(d *RunDesc, res *RunResult) {
 	res.Stats.Tasks = 1
 	res.Stats.DecodeOK, res.Stats.DecodeFail = ctx.nOK, ctx.nFail
 	if sr.Budget {
-		res.Trouble = "yield budget exceeded"
+		res.Stats.count("yield-budget-exceeded") // informational; a real endless loop ends in the watchdog
 	}
 	for i := range d.Tasks[0] {
 		if d.Tasks[0][i].K == "dec" {
